@@ -3,10 +3,12 @@ package props
 import (
 	"context"
 	"github.com/glebziz/fs_db"
+	"io"
 	"math/rand"
 	"path/filepath"
 	"sync"
 	"sync/atomic"
+	"time"
 
 	"fmt"
 	"github.com/glebziz/fs_db/pkg/verif"
@@ -493,4 +495,114 @@ func doubleEnd(c *rt.CaseResult, env *dbx.Env, rng *rand.Rand, val, curD string,
 	}
 	c.AddDistinct(fmt.Sprintf("double-end/%s/commit||%s/committed=%v", modeName(env.Opt.Mode), second, committed))
 	return curD, false
+}
+
+func init() {
+	p := Registry["C13"]
+	p.Roles["latelarge"] = Role{N: func(t string) int { return tierN(t, 4, 24) }, Case: c13LateLarge}
+	p.Rule += " Role latelarge (inline and gRPC): large late writes - Set and SetReader of 3-9 MiB and files from Create that are closed tens of milliseconds after their first Write - through transactions that have ended (committed, rolled back, failed with a conflict) or were never begun: the refusal reaches the writer while it is still sending, and must still arrive as ErrTxNotFound; nothing becomes visible."
+}
+
+// c13LateLarge: the refusal of a late write must be ErrTxNotFound also when the upload is large.
+func c13LateLarge(tier string, seed int64, idx int, scratch string) rt.CaseResult {
+	var c rt.CaseResult
+	mode := dbx.Inline
+	if idx%2 == 1 {
+		mode = dbx.Grpc
+	}
+	env, err := dbx.Open(dbx.Options{Mode: mode, Dir: filepath.Join(scratch, "db")})
+	if err != nil {
+		c.Violate("open-failed", err.Error(), nil)
+		return c
+	}
+	defer env.Close()
+	rng := seqrun.Rng(seed, "C13l", idx)
+	env.DB.Set(ctxBg, "k", []byte("v0"))
+	big := make([]byte, 9<<20)
+	rng.Read(big)
+	for it := 0; it < tierN(tier, 6, 12); it++ {
+		rt.Beat()
+		level := rng.Intn(4)
+		var tx fs_db.Tx
+		end := []string{"commit", "rollback", "never-begun"}[it%3]
+		if end == "never-begun" {
+			tx = verif.TxHandle(env.DB, fmt.Sprintf("%08x-1111-4111-8111-%012x", rng.Uint32(), rng.Int63n(1<<48)))
+		} else {
+			tx, err = env.DB.Begin(ctxBg, verif.IsoLevel(level))
+			if err != nil {
+				c.Violate("begin-failed", err.Error(), nil)
+				return c
+			}
+			if end == "commit" {
+				err = tx.Commit(ctxBg)
+			} else {
+				err = tx.Rollback(ctxBg)
+			}
+			if err != nil {
+				c.Violate("end-failed op="+end, err.Error(), nil)
+				return c
+			}
+		}
+		size := (3 + rng.Intn(6)) << 20
+		for _, api := range []string{"set", "setreader", "create"} {
+			var werr error
+			switch api {
+			case "set":
+				werr = tx.Set(ctxBg, "k", big[:size])
+			case "setreader":
+				werr = tx.SetReader(ctxBg, "k", &pieceSrc{data: big[:size], piece: 1000 + rng.Intn(5000)})
+			default:
+				var f fs_db.File
+				f, werr = tx.Create(ctxBg, "k")
+				if werr == nil {
+					_, werr = f.Write(big[:size/2])
+					time.Sleep(time.Duration(5+rng.Intn(40)) * time.Millisecond)
+					if werr == nil {
+						_, werr = f.Write(big[size/2 : size])
+					}
+					if cerr := f.Close(); werr == nil {
+						werr = cerr
+					}
+				}
+			}
+			c.Evals++
+			rp := map[string]any{"seed": seed, "case": idx, "mode": modeName(mode), "end": end, "level": level, "api": api, "bytes": size, "result": fmt.Sprint(werr)}
+			if cls := seqrun.Class(werr); cls != refmodel.TxNotFound {
+				c.Violate(fmt.Sprintf("late-large-write-wrong-result op=%s got=%s", api, cls), fmt.Sprintf("%s of %d bytes through a transaction that is over (%s) returned %v instead of ErrTxNotFound (%s client)", api, size, end, werr, modeName(mode)), rp)
+				return c
+			}
+			if b, gerr := env.DB.Get(ctxBg, "k"); gerr != nil || string(b) != "v0" {
+				c.Violate("late-write-visible op="+api, fmt.Sprintf("after the refused late %s the key reads %s (%v)", api, seqrun.Describe(b), gerr), rp)
+				return c
+			}
+			c.AddDistinct(fmt.Sprintf("latelarge/%s/%s/%s", modeName(mode), end, api))
+		}
+	}
+	if idx == 0 {
+		c.Sample = map[string]any{"scenario": "large late writes through finished transactions", "mode": modeName(mode)}
+	}
+	return c
+}
+
+// pieceSrc is a reader without WriteTo that delivers its content in pieces of one size.
+type pieceSrc struct {
+	data  []byte
+	piece int
+	off   int
+}
+
+func (p *pieceSrc) Read(b []byte) (int, error) {
+	if p.off >= len(p.data) {
+		return 0, io.EOF
+	}
+	n := p.piece
+	if n > len(b) {
+		n = len(b)
+	}
+	if n > len(p.data)-p.off {
+		n = len(p.data) - p.off
+	}
+	copy(b, p.data[p.off:p.off+n])
+	p.off += n
+	return n, nil
 }
